@@ -114,8 +114,13 @@ package server
 // handle runs every connection under a recover registered first; its recover closure, the accept loop,
 // the heartbeat and the ping runner cannot panic (safety kinds checked; channel operations and the
 // event bus are outside, see the assumed contracts).
+// The calling convention of the services (properties C04, C15): whatever the listener accepted, Handle
+// receives it wrapped in the timeout connection; a service cannot see the listener's concrete type.
 //@ func (*Honeytrap).handle
 //@   noescape
+//@   requires conn != nil && 0 <= conn.consumed && conn.consumed < 1<<50
+//@   requires forall k net.Addr, i int :: 0 <= i && i < len(hc.ports[k]) ==> hc.ports[k][i] != nil
+//@   callpre Servicer.Handle: a2 != nil && typeis(a2, *timeoutConn)
 //@   modifies *
 //@ func (*Honeytrap).handle$1
 //@   check safety
